@@ -134,7 +134,7 @@ def ensure_facts(config="default", repo=REPO, quiet=False):
         lock.close()
 
 
-def _prune(keep=6):
+def _prune(keep=40):
     root = os.path.join(CACHE, "facts")
     ds = [os.path.join(root, d) for d in os.listdir(root)]
     ds.sort(key=os.path.getmtime, reverse=True)
